@@ -45,6 +45,15 @@ pub fn run() -> i32 {
                 None => "N".to_string(),
                 Some(x) => x.to_string(),
             }),
+            // NodeVec::borrow_node on an all-blank vector of a[0] nodes: 1 = answered (a blank node), 0 = InvalidNodeIndex
+            "nodevec" => p(|| {
+                let nodes = mls_rs::group::NodeVec::from(vec![None; a[0] as usize]);
+                match nodes.borrow_node(u(1)) {
+                    Ok(_) => "1".to_string(),
+                    Err(mls_rs::error::MlsError::InvalidNodeIndex(_)) => "0".to_string(),
+                    Err(_) => "E".to_string(),
+                }
+            }),
             _ => Some("?".to_string()),
         };
         writeln!(out, "{}", ans.unwrap_or_else(|| "P".to_string())).unwrap();
